@@ -1310,6 +1310,221 @@ theorem struct_roundtrip (ty : Ty) (val : Val) (v : Value) (X : Bytes) (hty : ty
     decodeStruct ty (encode v ++ X) = .ok val := by
   exact decodeVal_encode ty false .anon val v X hty trivial hv hl
 
+/-! ### `[T; N]`: what the decoder makes of a TLV array of any length -/
+
+/-- **`[T; N]`, padding and overflow.**  The bytes of a TLV array of `k` items (as the slice / `Vec` encoder writes
+it) decode, as a `[T; N]`, to the `k` items followed by `N - k` copies of `T::default()` when `k ≤ N`, and are
+refused (`ConstraintError`) when `k > N`.  (`k = N` is the round trip.) -/
+theorem fixarr_decodes_array (n : Nat) (el : Ty) (d : Val) (t : Tag) (vs : Vals) (v : Value) (X : Bytes)
+    (hty : el.wf) (hv : encodeVal false (.array none el) t (.arr vs) = some v)
+    (hl : (encode v).length + 1 < USIZE) :
+    decodeVal false (.fixarr n el d) (encode v ++ X) =
+      if vs.length ≤ n then .ok (.arr (padTo n d vs)) else .err .invalid := by
+  simp only [encodeVal, capOk, if_true] at hv
+  cases he : encodeElems el vs with
+  | none => simp [he] at hv
+  | some xs =>
+    simp only [he, Option.some.injEq] at hv; subst hv
+    have hcl := encode_cont_len t .array (Values.ofList xs)
+    have hwf : (Values.ofList xs).wf := ofList_wf xs
+      (encodeElems_shape el (fun val v hv => (encodeVal_shape el false .anon val v hty trivial hv).1) vs xs he)
+    have hseq := decodeSeqCap_encodes el X
+      (fun val v X' hv hdv => decodeVal_encode el false .anon val v X' hty trivial hv hdv) vs xs n he (by omega)
+    have hne : (encode (Value.cont t Kind.array (Values.ofList xs)) ++ X).isEmpty = false := encode_ne_nil _ _
+    have harr : arrayOf (encode (Value.cont t Kind.array (Values.ofList xs)) ++ X) = .ok (encodes (Values.ofList xs) ++ endByte :: X) :=
+      enter_cont .array t _ X
+    simp only [decodeVal, arrayNew, hne, Bool.false_eq_true, if_false, harr, Res.ok_bind, Res.pure_eq,
+      containerOrEmpty, containerOf_cont,
+      elements_encodes _ X hwf (Values.depth_lt_of_len _ (by omega)), hseq]
+    by_cases hle : vs.length ≤ n
+    · simp [hle, Res.ok_bind]
+    · simp [hle, Res.bind]
+
+/-! ### bit flags: the real encoder is the one of the schema with the masks erased -/
+
+theorem Dom.accepts_eraseMask (d : Dom) (n : Nat) (h : d.accepts n = true) : d.eraseMask.accepts n = true := by
+  cases d <;> simp_all [Dom.eraseMask, Dom.accepts]
+
+theorem Alts.get_eraseMask : ∀ (alts : Alts) (i : Nat),
+    alts.eraseMask.get i = (alts.get i).map fun p => (p.1, p.2.eraseMask)
+  | .nil, _ => rfl
+  | .cons _ _ _, 0 => rfl
+  | .cons _ _ rest, i + 1 => by simp only [Alts.eraseMask, Alts.get, Alts.get_eraseMask rest i]
+
+theorem encodeElems_eraseMask (el : Ty)
+    (hP : ∀ val v, encodeVal false el .anon val = some v → encodeVal false el.eraseMask .anon val = some v) :
+    ∀ (vs : Vals) (xs : List Value), encodeElems el vs = some xs → encodeElems el.eraseMask vs = some xs
+  | .nil, xs, h => by simpa only [encodeElems] using h
+  | .cons a r, xs, h => by
+    simp only [encodeElems] at h
+    cases ha : encodeVal false el .anon a with
+    | none => simp [ha] at h
+    | some x =>
+      cases hr : encodeElems el r with
+      | none => simp [ha, hr] at h
+      | some rs =>
+        simp only [ha, hr] at h
+        simp only [encodeElems, hP a x ha, encodeElems_eraseMask el hP r rs hr]; exact h
+
+mutual
+/-- every value the restricted encoder (`encodeVal`: flags that `from_bits` can produce) accepts is written with
+the same bytes by the real one -/
+theorem encodeVal_eraseMask : ∀ (ty : Ty) (nl : Bool) (t : Tag) (val : Val) (v : Value),
+    encodeVal nl ty t val = some v → encodeVal nl ty.eraseMask t val = some v
+  | .uint w d, nl, t, val, v, h => by
+    cases val <;> simp only [encodeVal, reduceCtorEq] at h
+    rename_i n
+    split at h
+    · rename_i hc
+      simp only [Bool.and_eq_true] at hc
+      simp only [Ty.eraseMask, encodeVal, hc.1.1, Dom.accepts_eraseMask d n hc.1.2, hc.2, Bool.and_self, if_true]
+      exact h
+    · simp at h
+  | .bool, nl, t, val, v, h => by simpa only [Ty.eraseMask] using h
+  | .octets lo cap, nl, t, val, v, h => by simpa only [Ty.eraseMask] using h
+  | .utf8 cap, nl, t, val, v, h => by simpa only [Ty.eraseMask] using h
+  | .any, nl, t, val, v, h => by simpa only [Ty.eraseMask] using h
+  | .sint w nz, nl, t, val, v, h => by simpa only [Ty.eraseMask] using h
+  | .f32, nl, t, val, v, h => by simpa only [Ty.eraseMask] using h
+  | .f64, nl, t, val, v, h => by simpa only [Ty.eraseMask] using h
+  | .struct k fs, nl, t, val, v, h => by
+    cases val <;> simp only [encodeVal, reduceCtorEq] at h
+    rename_i ss
+    cases hf : encodeFields fs ss with
+    | none => simp [hf] at h
+    | some vs =>
+      simp only [hf] at h
+      simp only [Ty.eraseMask, encodeVal, encodeFields_eraseMask fs ss vs hf]; exact h
+  | .array cap el, nl, t, val, v, h => by
+    cases val <;> simp only [encodeVal, reduceCtorEq] at h
+    rename_i vs
+    split at h
+    · rename_i hcap
+      cases he : encodeElems el vs with
+      | none => simp [he] at h
+      | some xs =>
+        simp only [he] at h
+        simp only [Ty.eraseMask, encodeVal, hcap, if_true,
+          encodeElems_eraseMask el (fun val v hv => encodeVal_eraseMask el false .anon val v hv) vs xs he]
+        exact h
+    · simp at h
+  | .fixarr n el d, nl, t, val, v, h => by
+    cases val <;> simp only [encodeVal, reduceCtorEq] at h
+    rename_i vs
+    split at h
+    · rename_i hlen
+      cases he : encodeElems el vs with
+      | none => simp [he] at h
+      | some xs =>
+        simp only [he] at h
+        simp only [Ty.eraseMask, encodeVal, hlen, if_true,
+          encodeElems_eraseMask el (fun val v hv => encodeVal_eraseMask el false .anon val v hv) vs xs he]
+        exact h
+    · simp at h
+  | .choice alts, nl, t, val, v, h => by
+    cases val <;> simp only [encodeVal, reduceCtorEq] at h
+    rename_i i a
+    cases hg : alts.get i with
+    | none => simp [hg] at h
+    | some pr =>
+      obtain ⟨tag, ty⟩ := pr
+      cases ha : encodeVal false ty (.ctx tag) a with
+      | none => simp [hg, ha] at h
+      | some x =>
+        simp only [hg, ha] at h
+        have := encodeAlts_eraseMask alts i tag ty a x hg ha
+        simp only [Ty.eraseMask, encodeVal, Alts.get_eraseMask, hg, Option.map_some, this]; exact h
+theorem encodeAlts_eraseMask : ∀ (alts : Alts) (i tag : Nat) (ty : Ty) (a : Val) (x : Value),
+    alts.get i = some (tag, ty) → encodeVal false ty (.ctx tag) a = some x →
+    encodeVal false ty.eraseMask (.ctx tag) a = some x
+  | .nil, i, tag, ty, a, x, hg, _ => by simp [Alts.get] at hg
+  | .cons tg ty' rest, 0, tag, ty, a, x, hg, ha => by
+    simp only [Alts.get, Option.some.injEq, Prod.mk.injEq] at hg
+    obtain ⟨rfl, rfl⟩ := hg
+    exact encodeVal_eraseMask ty' false (.ctx tg) a x ha
+  | .cons tg ty' rest, i + 1, tag, ty, a, x, hg, ha => by
+    simp only [Alts.get] at hg
+    exact encodeAlts_eraseMask rest i tag ty a x hg ha
+theorem encodeFields_eraseMask : ∀ (fs : Fields) (ss : Slots) (vals : List Value),
+    encodeFields fs ss = some vals → encodeFields fs.eraseMask ss = some vals
+  | .nil, ss, vals, h => by
+    cases ss <;> simp only [encodeFields, reduceCtorEq] at h
+    simpa only [Fields.eraseMask, encodeFields] using h
+  | .cons tag o n ty rest, ss, vals, h => by
+    cases ss with
+    | nil => simp only [encodeFields, reduceCtorEq] at h
+    | cons s r =>
+      cases s with
+      | absent =>
+        simp only [encodeFields] at h
+        split at h
+        · rename_i ho
+          simp only [Fields.eraseMask, encodeFields, ho, if_true]
+          exact encodeFields_eraseMask rest r vals h
+        · simp at h
+      | null =>
+        simp only [encodeFields] at h
+        split at h
+        · rename_i hn
+          cases hr : encodeFields rest r with
+          | none => simp [hr] at h
+          | some rs =>
+            simp only [hr] at h
+            simp only [Fields.eraseMask, encodeFields, hn, if_true, encodeFields_eraseMask rest r rs hr]; exact h
+        · simp at h
+      | val a =>
+        simp only [encodeFields] at h
+        cases ha : encodeVal n ty (.ctx tag) a with
+        | none => simp [ha] at h
+        | some x =>
+          cases hr : encodeFields rest r with
+          | none => simp [ha, hr] at h
+          | some rs =>
+            simp only [ha, hr] at h
+            simp only [Fields.eraseMask, encodeFields, encodeVal_eraseMask ty n (.ctx tag) a x ha,
+              encodeFields_eraseMask rest r rs hr]; exact h
+  | .consSkip tag ty dflt rest, ss, vals, h => by
+    cases ss with
+    | nil => simp only [encodeFields, reduceCtorEq] at h
+    | cons s r =>
+      cases s with
+      | absent => simp only [encodeFields, reduceCtorEq] at h
+      | null => simp only [encodeFields, reduceCtorEq] at h
+      | val a =>
+        simp only [encodeFields] at h
+        cases ha : encodeVal false ty (.ctx tag) a with
+        | none => simp [ha] at h
+        | some x =>
+          cases hr : encodeFields rest r with
+          | none => simp [ha, hr] at h
+          | some rs =>
+            simp only [ha, hr] at h
+            simp only [Fields.eraseMask, encodeFields, encodeVal_eraseMask ty false (.ctx tag) a x ha,
+              encodeFields_eraseMask rest r rs hr]; exact h
+end
+
+/-- a flags value holding a bit outside the declared flags (`from_bits_retain`): the real encoder writes it like
+any integer, the decoder (`from_bits`) refuses the bytes — no round trip for such values -/
+theorem bitflags_undefined_rejected (w : Width) (m n : Nat) (nl : Bool) (t : Tag) (X : Bytes)
+    (h1 : n ≤ wmax w) (h2 : (n &&& m) ≠ n) (h3 : nl = true → n ≠ wmax w) :
+    encodeVal nl (Ty.uint w (.mask m)).eraseMask t (.num n) = some (.leaf t (uintPrim w n)) ∧
+    encodeVal nl (Ty.uint w (.mask m)) t (.num n) = none ∧
+    decodeVal nl (.uint w (.mask m)) (encode (.leaf t (uintPrim w n)) ++ X) = .err .invalid := by
+  have hne : (nl && n == wmax w) = false := by
+    cases nl
+    · rfl
+    · simp [h3 rfl]
+  have hok : (!nl || n != wmax w) = true := by
+    cases nl
+    · rfl
+    · simp [h3 rfl]
+  refine ⟨?_, ?_, ?_⟩
+  · simp only [Ty.eraseMask, Dom.eraseMask, encodeVal, Dom.accepts, decide_eq_true h1, hok, Bool.and_self, if_true]
+  · simp only [encodeVal, Dom.accepts, beq_eq_false_iff_ne.mpr h2, Bool.and_false, Bool.false_and,
+      Bool.false_eq_true, if_false]
+  · simp only [decodeVal, readUint_written t w n X h1, Res.ok_bind, hne, Bool.false_eq_true, if_false, Dom.accepts,
+      beq_eq_false_iff_ne.mpr h2]
+
 /-! ### the tag numbering rule of the derive macro -/
 
 /-- number of implicitly numbered fields -/
